@@ -152,6 +152,19 @@ Theorem C02_narrow_no_widening_plain : forall V c pol o,
 Proof. exact narrow_no_widening_plain. Qed.
 Print Assumptions C02_narrow_no_widening_plain.
 
+(* (1')/(2') the same two statements for what an `if` makes of x end to end, where visit_BoolOp
+   first merges a narrowed copy of x (by the first operand) into the variable *)
+Theorem C02_narrow_e2e_keeps_value_partial : forall V c pol o,
+  member o V = true -> holds c o = Some pol -> c02_guard c o = true ->
+  member o (narrow_e2e V c pol) = true.
+Proof. exact narrow_e2e_keeps_value_partial. Qed.
+Print Assumptions C02_narrow_e2e_keeps_value_partial.
+
+Theorem C02_narrow_e2e_no_widening : forall V c pol o,
+  member o (narrow_e2e V c pol) = true -> bmember o V = true \/ bmember o (tested c) = true.
+Proof. exact narrow_e2e_no_widening. Qed.
+Print Assumptions C02_narrow_e2e_no_widening.
+
 (* (3) always-false / always-true verdicts of get_boolability are right for every member *)
 Theorem C02_always_false_correct : forall V o,
   is_safely_false (boolab_of V) = true -> member o V = true -> truthy o = false.
